@@ -23,6 +23,7 @@ import (
 	"github.com/syndtr/goleveldb/leveldb/opt"
 
 	gcmn "github.com/dappledger/AnnChain/gemmill/modules/go-common"
+	"github.com/dappledger/AnnChain/gemmill/utils/failpoint"
 )
 
 func init() {
@@ -60,6 +61,7 @@ func (db *GoLevelDB) Get(key []byte) []byte {
 }
 
 func (db *GoLevelDB) Set(key []byte, value []byte) {
+	failpoint.Write("godb", "set", key)
 	err := db.db.Put(key, value, nil)
 	if err != nil {
 		gcmn.PanicCrisis(err)
@@ -67,6 +69,7 @@ func (db *GoLevelDB) Set(key []byte, value []byte) {
 }
 
 func (db *GoLevelDB) SetSync(key []byte, value []byte) {
+	failpoint.Write("godb", "setsync", key)
 	err := db.db.Put(key, value, &opt.WriteOptions{Sync: true})
 	if err != nil {
 		gcmn.PanicCrisis(err)
@@ -74,6 +77,7 @@ func (db *GoLevelDB) SetSync(key []byte, value []byte) {
 }
 
 func (db *GoLevelDB) Delete(key []byte) {
+	failpoint.Write("godb", "delete", key)
 	err := db.db.Delete(key, nil)
 	if err != nil {
 		gcmn.PanicCrisis(err)
@@ -81,6 +85,7 @@ func (db *GoLevelDB) Delete(key []byte) {
 }
 
 func (db *GoLevelDB) DeleteSync(key []byte) {
+	failpoint.Write("godb", "deletesync", key)
 	err := db.db.Delete(key, &opt.WriteOptions{Sync: true})
 	if err != nil {
 		gcmn.PanicCrisis(err)
@@ -129,6 +134,7 @@ func (mBatch *goLevelDBBatch) Delete(key []byte) {
 }
 
 func (mBatch *goLevelDBBatch) Write() {
+	failpoint.Write("godb", "batch", nil)
 	err := mBatch.db.db.Write(mBatch.batch, nil)
 	if err != nil {
 		gcmn.PanicCrisis(err)
